@@ -64,21 +64,33 @@ def ToyCfg.reject (c : ToyCfg) : Option String :=
 def ToyCfg.init (c : ToyCfg) : St Toy.Vec (Option Toy.Vec) Toy.Vec Unit :=
   ⟨c.w0, none, List.replicate c.d 0, 0, ()⟩
 
-def opLoop (c : ToyCfg) (pinned : Bool) : String :=
+/-- `aux`: an additional model in `self.models` (parameters `w ++ v`); `oom`: iterations that hit the OOM recovery -/
+def opLoop (c : ToyCfg) (pinned aux : Bool) (oom : List Int) : String :=
   match c.reject with
   | some e => "err " ++ e
   | none =>
     let table := if pinned then loopTablePinned else loopTable
     let cfg : Cfg := { k := c.k }
+    let ops := if aux then Toy.opsAux c.d c.mu else Toy.ops c.d c.mu
+    let init : St Toy.Vec (Option Toy.Vec) Toy.Vec Unit :=
+      if aux then ⟨c.w0 ++ List.replicate c.d 0, none, List.replicate (2 * c.d) 0, 0, ()⟩ else c.init
+    let isOom : Nat → Bool := fun i => oom.contains (i : Int)
     let states := (List.range c.total).map fun n =>
-      runRangeT table (Toy.ops c.d c.mu) c.lrAt cfg c.batch c.init 0 (n + 1)
-    okG (states.map fun s => vecG s.theta ++ ratG (c.lrAt s.epoch))
+      if oom.isEmpty then runRangeT table ops c.lrAt cfg c.batch init 0 (n + 1)
+      else runRangeO ops c.lrAt cfg c.batch isOom init 0 (n + 1)
+    -- one record per *completed* iteration (a skipped one logs nothing)
+    let recs := (List.range c.total).zip states |>.filter (fun (n, _) => !isOom n) |>.map (·.2)
+    okG (recs.map fun s => vecG s.theta ++ ratG (c.lrAt s.epoch))
 
 def step (op : String) (gs : List (List Int)) : String :=
   match op, gs with
   | "loop", [hdr, mu, sched, ms, xs, ys, w0] =>
     match parseToy hdr mu sched ms xs ys w0 with
-    | some c => opLoop c (hdr.getD 4 0 == 1)
+    | some c => opLoop c (hdr.getD 4 0 == 1) (hdr.getD 5 0 == 1) []
+    | none => "err BadOp"
+  | "loop", [hdr, mu, sched, ms, xs, ys, w0, oom] =>
+    match parseToy hdr mu sched ms xs ys w0 with
+    | some c => opLoop c (hdr.getD 4 0 == 1) (hdr.getD 5 0 == 1) oom
     | none => "err BadOp"
   | _, _ => "err BadOp"
 
